@@ -103,6 +103,12 @@ CHECKS = {
         "text": "Priority.tla transcribes the priority checks, the ALG II / Kinderzuschlag / Wohngeld payment rules and the Wohngeld part-household split; TLC proves on every household of up to two needs units with amounts 0..2 (every break-even equality occurs) that ALG II never coincides with Wohngeld or Kinderzuschlag, that Grundsicherung excludes the others and that Kinderzuschlag is only paid when it covers the need alone or with Wohngeld. Every state is replayed on the real rules by supplying need, income, entitlements and pensioner facts as data; full simulations of dressed households (wage grid across the break-even region, several needs units per household, pensioner mixes) are checked per household for the same invariants and for 'one part-household per needs unit'.",
         "note": "Grid amounts are multiples of 100 EUR; two-unit states sampled in quick; full-system runs are seeded samples at 3 (thorough 10) dates; the evidence records how many persons actually received each benefit (vacuity guard).",
     },
+    "C15": {
+        "level": "model_checking",
+        "technique": "TLA+ constancy-level typing of the real function table over the nesting order of the units (Levels.tla) giving static candidates; every group-suffixed column of witness runs validated by TLC for one value per group (Trace_Levels)",
+        "text": "Levels.tla types each node with the set of groupings within which it is certainly constant (data by suffix, aggregates and ids by their group, rules by the meet of their arguments, using the nesting that Households.tla proves) and TLC lists the group-suffixed nodes whose constancy it cannot prove. Witness populations (several structures in one household, unmarried couples, spouses apart, self-sufficient children; members differ in every individual-level input) are simulated with all non-time-derived nodes and TLC checks every group-suffixed column against the id column of its group; violations are reduced to root-cause nodes.",
+        "note": "Static typing yields candidates only (recorded in the evidence); a VIOLATION needs a dynamic witness. mietstufe and wohnort_ost are treated as household-level facts by the generator. Populations are seeded samples at 4 (thorough 10) dates.",
+    },
 }
 
 NOT_APPLICABLE = {}
